@@ -49,7 +49,7 @@ Proof.
   assert (Hs0 : sqrt (qnorm2 ROps q) <> 0) by (intros E; rewrite E in Hs; lra).
   revert Hs Hs0 Hn. qdestruct. dunfold.
   generalize (sqrt (r * r + r0 * r0 + r1 * r1 + r2 * r2)). intros s Hs Hs0 Hn.
-  tuple_eq; field_simplify_eq; try assumption; nsatz.
+  tuple_eq; (field_simplify_eq; [|assumption]); replace (s ^ 2) with (s * s) by ring; rewrite Hs; ring.
 Qed.
 
 (* the two backends of Quaternion * Vector3d agree on every non-zero quaternion
@@ -63,7 +63,7 @@ Proof.
   revert Hs Hs0 Hn. qdestruct. dunfold.
   generalize (sqrt (r * r + r0 * r0 + r1 * r1 + r2 * r2)). intros s Hs Hs0 Hn.
   assert (Hn0 : r * r + r0 * r0 + r1 * r1 + r2 * r2 <> 0) by lra.
-  tuple_eq; field_simplify_eq; try (split; assumption); nsatz.
+  tuple_eq; (field_simplify_eq; [|repeat split; assumption]); replace (s ^ 2) with (s * s) by ring; rewrite Hs; ring.
 Qed.
 
 Lemma qunit_of_unit (q : Rq) : qnorm2 ROps q = 1 -> qunit ROps q = q.
@@ -82,7 +82,7 @@ Proof.
   assert (Hs0 : sqrt (qnorm2 ROps q) <> 0) by (intros E; rewrite E in Hs; lra).
   revert Hs Hs0 Hn. qdestruct. dunfold.
   generalize (sqrt (r * r + r0 * r0 + r1 * r1 + r2 * r2)). intros s Hs Hs0 Hn.
-  field_simplify_eq; try assumption; nsatz.
+  (field_simplify_eq; [|assumption]); replace (s ^ 2) with (s * s) by ring; rewrite Hs; ring.
 Qed.
 
 (* lazy = eager exactly when |q| = 1 or the vector is zero *)
@@ -124,17 +124,18 @@ Proof. qdestruct; reflexivity. Qed.
 Lemma qdot_unit_le1 (p q : Rq) :
   qnorm2 ROps p = 1 -> qnorm2 ROps q = 1 -> Rabs (qdot ROps p q) <= 1.
 Proof.
-  qdestruct; dunfold; intros Hp Hq.
-  set (t := r * r3 + r0 * r4 + r1 * r5 + r2 * r6).
+  destruct p as [[[a b] c] d], q as [[[e f] g] h]; dunfold; intros Hp Hq.
+  set (t := a * e + b * f + c * g + d * h).
   assert (Hl : t * t <= 1).
-  { assert (E : (r * r + r0 * r0 + r1 * r1 + r2 * r2) * (r3 * r3 + r4 * r4 + r5 * r5 + r6 * r6) - t * t
-                = (r * r4 - r0 * r3) ^ 2 + (r * r5 - r1 * r3) ^ 2 + (r * r6 - r2 * r3) ^ 2
-                  + (r0 * r5 - r1 * r4) ^ 2 + (r0 * r6 - r2 * r4) ^ 2 + (r1 * r6 - r2 * r5) ^ 2)
+  { assert (E : (a * a + b * b + c * c + d * d) * (e * e + f * f + g * g + h * h) - t * t
+                = (a * f - b * e) ^ 2 + (a * g - c * e) ^ 2 + (a * h - d * e) ^ 2
+                  + (b * g - c * f) ^ 2 + (b * h - d * f) ^ 2 + (c * h - d * g) ^ 2)
       by (unfold t; ring).
     rewrite Hp, Hq in E.
-    pose proof (pow2_ge_0 (r * r4 - r0 * r3)). pose proof (pow2_ge_0 (r * r5 - r1 * r3)).
-    pose proof (pow2_ge_0 (r * r6 - r2 * r3)). pose proof (pow2_ge_0 (r0 * r5 - r1 * r4)).
-    pose proof (pow2_ge_0 (r0 * r6 - r2 * r4)). pose proof (pow2_ge_0 (r1 * r6 - r2 * r5)). lra. }
+    pose proof (pow2_ge_0 (a * f - b * e)). pose proof (pow2_ge_0 (a * g - c * e)).
+    pose proof (pow2_ge_0 (a * h - d * e)). pose proof (pow2_ge_0 (b * g - c * f)).
+    pose proof (pow2_ge_0 (b * h - d * f)). pose proof (pow2_ge_0 (c * h - d * g)). lra. }
+  clearbody t. pose proof (pow2_ge_0 (t + 1)). pose proof (pow2_ge_0 (t - 1)).
   unfold Rabs. destruct (Rcase_abs t); nra.
 Qed.
 
@@ -161,7 +162,7 @@ Qed.
 
 Lemma lmax0_app l1 l2 : lmax0 ROps (l1 ++ l2) = Rmax (lmax0 ROps l1) (lmax0 ROps l2).
 Proof.
-  induction l1 as [|x l1 IH]; simpl.
+  induction l1 as [|x l1 IH]; cbn [app].
   - change (lmax0 ROps []) with 0. rewrite Rmax_right by apply lmax0_nonneg. reflexivity.
   - rewrite !lmax0_cons, IH. apply Rmax_assoc.
 Qed.
@@ -169,7 +170,7 @@ Qed.
 (* a max-reduction over a chunked axis (max of the per-chunk maxima) is the max *)
 Lemma lmax0_concat ls : lmax0 ROps (map (lmax0 ROps) ls) = lmax0 ROps (concat ls).
 Proof.
-  induction ls as [|l ls IH]; simpl; [reflexivity|].
+  induction ls as [|l ls IH]; cbn [map concat]; [reflexivity|].
   rewrite lmax0_cons, lmax0_app, IH. reflexivity.
 Qed.
 
@@ -217,7 +218,7 @@ Proof.
   unfold sym_dot_eager, sym_dot_lazy, sym_term_eager. cbn [map fst snd xorb].
   rewrite !lmax0_cons. change (lmax0 ROps []) with 0. rewrite o_min_Rmin. dunfold. split.
   - replace (0 * 1 + 0 * 0 + 0 * 0 + 1 * 0) with 0 by ring. rewrite Rabs_R0.
-    rewrite Rmin_right by lra. rewrite !Rmax_left; lra.
+    rewrite Rmin_right by lra. rewrite (Rmax_left 0 0) by lra. rewrite Rmax_left by lra. reflexivity.
   - replace (0 * 1 + 0 * 0 + 0 * 0 + 1 * 0) with 0 by ring.
     replace (0 * 0 + 0 * 0 + 0 * 0 + 1 * 1) with 1 by ring. rewrite Rabs_R0, Rabs_R1.
     rewrite (Rmax_left 1 0) by lra. apply Rmax_right; lra.
@@ -227,7 +228,7 @@ Qed.
 Lemma ang_0 : ang ROps 0 = PI.
 Proof.
   unfold ang. rsimpl. unfold Rltb. destruct (Rlt_dec 1 (2 * (0 * 0) - 1)); [lra|].
-  replace (2 * (0 * 0) - 1) with (- 1) by ring. rewrite acos_opp, acos_1. ring.
+  replace (2 * (0 * 0) - 1) with (Ropp 1) by ring. rewrite acos_opp, acos_1. ring.
 Qed.
 Lemma ang_1 : ang ROps 1 = 0.
 Proof.
